@@ -170,6 +170,83 @@ func checkC02(args []string) {
 			run.Sample(map[string]any{"case": name, "bytes": len(out)})
 		}
 	}
+	// large size fields: token partitions above 64 KiB (24-bit entries of the partition table), an ALPH chunk and a
+	// VP8L chunk of several hundred kilobytes. Pictures are noise, so every byte count is large. The written files go
+	// through the strict reader like all others; they must decode, and the partitioned encodes must decode to the
+	// pixels of the unpartitioned one (partitioning only distributes the same tokens).
+	{
+		noise := noiseNRGBA(rng, 512, 512, 0)
+		var ref image.Image
+		for _, parts := range []int{0, 1, 3} {
+			o := *webp.DefaultOptions()
+			o.Quality, o.Method, o.Partitions = 95, 2, parts
+			name := fmt.Sprintf("512x512 noise lossy q95 m2 partitions=%d (token partitions above 64 KiB)", parts)
+			out, err, pan := safeEncode(noise, &o)
+			run.Eval(name)
+			if pan != nil || err != nil {
+				run.Violate("encode-fails|large-partitions", fmt.Sprintf("%s: %v %v", name, err, pan), name)
+				continue
+			}
+			id := fmt.Sprintf("big-p%d", parts)
+			e := vx.NewExpect("source")
+			e.W, e.H, e.Anim, e.Alpha, e.NFrames = 512, 512, 0, 0, 1
+			files = append(files, vx.FileCase{ID: id, Must: "accept", Bytes: vx.Ints(out), X: []vx.Expect{e}})
+			info[id] = name + "||large-partitions"
+			im, derr := guardedDecode(out)
+			if derr != nil {
+				run.Violate("undecodable|large-partitions", name+": Encode returned nil but Decode fails: "+derr.Error(), name)
+				continue
+			}
+			if ref == nil {
+				ref = im
+			} else if !sameImage(im, ref) {
+				run.Violate("pixels|large-partitions", name+": decodes to other pixels than the unpartitioned encode", name)
+			}
+		}
+		an := noiseNRGBA(rng, 600, 400, 2)
+		for _, c := range []struct {
+			name string
+			o    webp.EncoderOptions
+		}{{"600x400 noise alpha, raw ALPH (240 000 bytes)", func() webp.EncoderOptions {
+			o := *webp.DefaultOptions()
+			o.AlphaCompression, o.Method = 0, 1
+			return o
+		}()}, {"400x300 noise lossless (VP8L chunk of several hundred KiB)", webp.EncoderOptions{Lossless: true, Quality: 20, Method: 0, Exact: true}}} {
+			var src *image.NRGBA = an
+			if c.o.Lossless {
+				src = an.SubImage(image.Rect(0, 0, 400, 300)).(*image.NRGBA)
+			}
+			oo := c.o
+			out, err, pan := safeEncode(src, &oo)
+			run.Eval(c.name)
+			if pan != nil || err != nil {
+				run.Violate("encode-fails|large-chunks", fmt.Sprintf("%s: %v %v", c.name, err, pan), c.name)
+				continue
+			}
+			id := fmt.Sprintf("big-%d", len(files))
+			e := vx.NewExpect("source")
+			e.W, e.H, e.Anim, e.Alpha, e.NFrames = src.Bounds().Dx(), src.Bounds().Dy(), 0, 1, 1
+			files = append(files, vx.FileCase{ID: id, Must: "accept", Bytes: vx.Ints(out), X: []vx.Expect{e}})
+			info[id] = c.name + "||large-chunks"
+			im, derr := guardedDecode(out)
+			if derr != nil {
+				run.Violate("undecodable|large-chunks", c.name+": Encode returned nil but Decode fails: "+derr.Error(), c.name)
+				continue
+			}
+			// alpha is exact in both (AlphaQuality 100 / lossless); lossless also keeps the colours
+			b := src.Bounds()
+			for y := 0; y < b.Dy(); y++ {
+				for x := 0; x < b.Dx(); x++ {
+					g, w := colorToNRGBA8(im, x, y), src.NRGBAAt(b.Min.X+x, b.Min.Y+y)
+					if g[3] != int(w.A) || (c.o.Lossless && (g[0] != int(w.R) || g[1] != int(w.G) || g[2] != int(w.B))) {
+						run.Violate("pixels|large-chunks", fmt.Sprintf("%s: pixel (%d,%d) decodes to %v, source %v", c.name, x, y, g, w), c.name)
+						y = b.Dy()
+						break
+					}
+				}
+			}
+		}
+	}
 	report := func(kind string, bad map[string]string) {
 		for id, why := range bad {
 			parts := strings.SplitN(info[id], "||", 2)
